@@ -325,6 +325,17 @@ func (db *DB) EnforceHaltLockExpiration(ctx context.Context) {
 	curr.guardSet.Unlock()
 }
 
+// HaltLock returns a copy of the halt lock currently held locally on behalf
+// of a remote node, if any.
+func (db *DB) HaltLock() *HaltLock {
+	curr := db.haltLockAndGuard.Load().(*haltLockAndGuard)
+	if curr == nil {
+		return nil
+	}
+	other := *curr.haltLock
+	return &other
+}
+
 // AcquireRemoteHaltLock acquires the remote lock and syncs the database to its
 // position before returning to the caller. Caller should provide a random lock
 // identifier so that the primary can deduplicate retry requests.
